@@ -54,22 +54,66 @@ func swallowExplains(rc *ref.Case, object, relation, user string, decided bool, 
 	if len(sw) == 0 {
 		return false
 	}
-	if len(sw) > 10 {
-		sw = sw[:10]
-	}
 	want := ref.F
 	if decided {
 		want = ref.T
 	}
-	for mask := 1; mask < 1<<len(sw); mask++ {
-		var drop []*openfgav1.TupleKey
-		for i, t := range sw {
-			if mask&(1<<i) != 0 {
-				drop = append(drop, t)
+	return subsetSearch(sw, func(drop []*openfgav1.TupleKey) bool {
+		return rc.Dropping(drop).Eval(user).K(object, relation) == want
+	})
+}
+
+// subsetSearch looks for a non-empty subset of cand accepted by try: the whole set first, then subsets
+// of size 1..3 (bounded number of evaluations: wide cases have dozens of candidates, an exhaustive 2^n
+// search is impossible), then, for at most 10 candidates, every remaining subset.
+func subsetSearch(cand []*openfgav1.TupleKey, try func([]*openfgav1.TupleKey) bool) bool {
+	if len(cand) == 0 {
+		return false
+	}
+	if try(cand) {
+		return true
+	}
+	budget := 1500
+	for size := 1; size <= 3 && size < len(cand); size++ {
+		idx := make([]int, size)
+		for i := range idx {
+			idx[i] = i
+		}
+		for {
+			drop := make([]*openfgav1.TupleKey, size)
+			for i, j := range idx {
+				drop[i] = cand[j]
+			}
+			if try(drop) {
+				return true
+			}
+			if budget--; budget <= 0 {
+				return false
+			}
+			i := size - 1
+			for i >= 0 && idx[i] == len(cand)-size+i {
+				i--
+			}
+			if i < 0 {
+				break
+			}
+			idx[i]++
+			for j := i + 1; j < size; j++ {
+				idx[j] = idx[j-1] + 1
 			}
 		}
-		if rc.Dropping(drop).Eval(user).K(object, relation) == want {
-			return true
+	}
+	if len(cand) <= 10 {
+		for mask := 1; mask < 1<<len(cand); mask++ {
+			var drop []*openfgav1.TupleKey
+			for i, t := range cand {
+				if mask&(1<<i) != 0 {
+					drop = append(drop, t)
+				}
+			}
+			if len(drop) > 3 && try(drop) {
+				return true
+			}
 		}
 	}
 	return false
@@ -115,6 +159,7 @@ func DedupExplains(rc *ref.Case, object, relation, user string, decided bool, wi
 	if len(cand) == 0 {
 		return false
 	}
+	dedupOnly := append([]*openfgav1.TupleKey{}, cand...)
 	if withSwallow {
 		for _, t := range rc.Unevaluable() {
 			dup := false
@@ -128,23 +173,22 @@ func DedupExplains(rc *ref.Case, object, relation, user string, decided bool, wi
 			}
 		}
 	}
-	if len(cand) > 10 {
-		cand = cand[:10]
-	}
 	want := ref.F
 	if decided {
 		want = ref.T
 	}
-	for mask := 1; mask < 1<<len(cand); mask++ {
-		var drop []*openfgav1.TupleKey
-		for i, t := range cand {
-			if mask&(1<<i) != 0 {
-				drop = append(drop, t)
-			}
-		}
-		if rc.Dropping(drop).Eval(user).K(object, relation) == want {
-			return true
-		}
+	if subsetSearch(cand, func(drop []*openfgav1.TupleKey) bool {
+		return rc.Dropping(drop).Eval(user).K(object, relation) == want
+	}) {
+		return true
+	}
+	// The drop happens per datastore read, not per request: the same tuple can be lost by the sorted
+	// ReadStartingWithUser of one sub-problem (say, the subtracted branch of an exclusion) and seen by
+	// the plain read of another (the base). No single consistent drop set reproduces such an answer.
+	// Per-read model: the candidate tuples count as "seen by some reads only" (unknown); the finding
+	// explains the answer when the decided reference value becomes undetermined under that weakening.
+	if k := rc.Eval(user).K(object, relation); k != ref.E {
+		return rc.Weakening(dedupOnly).Eval(user).K(object, relation) == ref.E
 	}
 	return false
 }
